@@ -2,7 +2,7 @@
    A stored constraint KDiseq ps means "not all equations of ps hold": [holds th ps].
    th ranges over *all* substitutions that solve the current bindings ([sat th s]). *)
 From Coq Require Import List ZArith Bool Arith.
-From PV Require Import Model.Term Model.Subst Model.Unify Model.FD Model.State Proofs.UnifyProofs Proofs.DiseqProofs.
+From PV Require Import Model.Term Model.Subst Model.Unify Model.FD Model.State Proofs.UnifyProofs Proofs.DiseqProofs Model.Engine Proofs.SemProofs Proofs.MonoProofs Proofs.DenProofs.
 Import ListNotations.
 
 (* posting u != v: nothing is stored when u and v can never be equal, the goal fails when they are
@@ -50,6 +50,25 @@ Example C02_pinned_refuted :
   fst (push_and_normalize store 1 newc) = store.
 Proof. vm_compute. split; reflexivity. Qed.
 
+(* WHOLE PROGRAMS.  Mst th st : th solves the substitution and every stored disequality of st.
+   Den th g : the logical reading of the goal (== equality, != difference, conjunction, disjunction,
+   calls by their bodies).  For ANY goal, search kind, fuel and number of steps: every solution of
+   every answer the engine delivers satisfies the logical reading of the program and solves the state
+   the program started from - the solutions of answers are solutions of the program. *)
+Theorem C02_answers_sound : forall defs k u n g st a rest u' th,
+  next defs k u (start defs n g st) = NAnswer a rest u' -> Mst th a -> Den defs th g /\ Mst th st.
+Proof. exact delivered_sound. Qed.
+(* the two constraint goals, on states *)
+Theorem C02_eq_den : forall st u v a, state_unify st u v = SOk a ->
+  Sol st a /\ forall th, sat th (st_smap a) -> app th u = app th v.
+Proof. exact state_unify_den. Qed.
+Theorem C02_diseq_den : forall st u v a, state_disunify st u v = SOk a ->
+  Sol st a /\ forall th, sat th (st_smap a) -> store_holds th (st_cstore a) -> app th u <> app th v.
+Proof. exact state_disunify_den. Qed.
+(* re-running the whole store after the substitution grew never loses a constraint's meaning *)
+Theorem C02_rerun_refines : forall f st, sresS st (run_constraints f st).
+Proof. exact run_constraints_S. Qed.
+
 Check C02_post_diseq : forall st u v,
   match unify dfuel (st_smap st) [] u v with
   | UFail => forall th, sat th (st_smap st) -> app th u <> app th v
@@ -62,3 +81,7 @@ Print Assumptions C02_recheck.
 Print Assumptions C02_subsumes.
 Print Assumptions C02_normalize.
 Print Assumptions C02_order_free.
+Print Assumptions C02_answers_sound.
+Print Assumptions C02_eq_den.
+Print Assumptions C02_diseq_den.
+Print Assumptions C02_rerun_refines.
